@@ -35,7 +35,7 @@ REQUIRED_BUCKETS = [
     "op:rm_lanelet_list", "op:rm_sign", "op:rm_sign_list", "op:rm_light", "op:rm_light_list", "op:rm_inter",
     "op:rm_inter_list", "op:replace_net", "op:gen", "add-rejected", "add-rejected[inter]", "add-rejected[network]",
     "add[network]-over-nonempty", "list-add-partial", "re-add-after-remove", "re-add-after-list-remove[inter]",
-    "hanging-member-removed", "rm-not-contained", "gen-after-remove", "readd-checked-on-copy", "size>=6",
+    "hanging-member-removed", "rm-not-contained", "gen-after-remove", "readd-checked-on-copy", "size>=6", "add-frame-checked",
 ]
 WORKERS = {"quick": 1, "thorough": 8}
 
@@ -470,6 +470,21 @@ class Run:
                           f"(contained ids {sorted(before['ids'])})")
             elif not self.is_contained(o, kind, after):
                 self.fail(site, "added-object-not-contained", f"{site} with ids {ids} returned but the object is not contained")
+            else:
+                # frame of an accepted add (C09_add_frame / C09_add_network_frame): nothing else came or went
+                was = {k: list(v) for k, v in before["ident"].items()}
+                now = {k: list(v) for k, v in after["ident"].items()}
+                if kind == "network":
+                    was = {k: v for k, v in was.items() if k not in NETKINDS}
+                    now = {k: v for k, v in now.items() if k not in NETKINDS}
+                else:
+                    now[kind] = [i for i in now[kind] if i != id(o)]
+                if {k: sorted(v) for k, v in was.items()} != {k: sorted(v) for k, v in now.items()}:
+                    self.ctx.tag("add-frame-broken")
+                    self.fail(site, "accepted-add-changed-other-objects",
+                              f"{site} with ids {ids} succeeded but other objects came or went: contained ids "
+                              f"{sorted(before['ids'])} -> {sorted(after['ids'])}")
+                self.ctx.tag("add-frame-checked")
         self.last_vanished, self.last_vanished_by = [], None
 
     def oracle_add_list(self, site, objs, res, before, after):
